@@ -131,14 +131,14 @@ def classify_failures(prop, v, fails, crashes, max_replays=5):
     return {t: len(rs) for t, rs in hits.items()}, len(new), skipped
 
 
-def run_ref_sweeps(hbin, wd, seed, plan):
+def run_ref_sweeps(hbin, wd, seed, plan, extra_env=None, jobs=16, timeout_s=900):
     """plan: list of (profile, n) [mode ref] or (mode, profile, n). Returns results, crashes, stats."""
     from vcheck import sweep
     allres, allcr, stats = [], [], {}
     for entry in plan:
         mode, profile, n = ("ref",) + tuple(entry) if len(entry) == 2 else entry
         res, cr = sweep(hbin, "diff", ["--mode", mode, "--profile", profile, "--seed", str(seed), "--dump-failing", wd], n, wd,
-                        "%s_%s" % (mode, profile or "full"))
+                        "%s_%s" % (mode, profile or "full"), jobs=jobs, timeout_s=timeout_s, extra_env=extra_env)
         for r in res:
             r["profile"] = profile
         allres += res
@@ -188,14 +188,26 @@ ORACLE_TEXT = {
     "perm": "result under random permutations of the storage's series order == base result",
     "hints": "recorded storage selects (matchers, hinted range, step, range, func, grouping, by) == reference engine's; result unchanged when the storage omits samples outside the hinted range, for optimizer sets none/default/all",
     "dist": "distributed engine over a random disjoint partition (1..4 engines, possibly empty) == central engine over the union",
+    "panic": "a panic (runtime error, error value, string value) injected at the k-th storage callback of any site becomes the query's error; the process survives; goroutines are gone after Close; a later query is unaffected",
+    "extreme": "extreme parameters and degenerate data: no crash, result == reference engine",
+    "storerr": "an error injected at the k-th storage interaction (Querier, Select, SeriesSet.Next/Err, Iterator Seek/Next) yields a result error wrapping it (errors.Is)",
+    "lifecycle": "no storage callback between creation and Exec; when Exec returns every querier opened has been closed exactly once, for normal completion, error, panic and cancellation at the k-th callback; canary-padded shared label slices and samples unchanged",
+    "cancel": "cancellation at the k-th callback / blocking storage / timer / Cancel() racing Exec: Exec returns within 5 s with the context's error or the complete result; goroutines gone 3 s after Close",
+    "cancelstress": "4000 runs per case with cancellation after 0-400 us: a successful result is the complete one",
+    "conc": "K in {2,8,32} concurrent queries (native, fallback, distributed) on one engine under the race detector: no race report, every result == solo result",
+    "hist": "histories of 10-50 operations (queries incl. failing/cancelled/fallback, appends, new series): result == fresh engine on current data; every earlier result == its snapshot after every operation",
     "wf": "successful result is a well-formed PromQL value (sorted, distinct label sets, non-empty series, increasing on-grid timestamps, no stale marker)",
 }
 
 
-def ref_family_check(prop, tier, seed, plan_quick, plan_thorough, corr=None, design="", extra_assumptions=None):
+def ref_family_check(prop, tier, seed, plan_quick, plan_thorough, corr=None, design="", extra_assumptions=None, race=False):
     t0 = time.time()
     v = Verdict(prop)
     hbin, _ = build_harness()
+    sweep_bin, sweep_env = hbin, None
+    if race:
+        sweep_bin, _ = build_harness(race=True)
+        sweep_env = {"GORACE": "halt_on_error=1"}
     ob, ob_fails = obligations(prop, hbin)
     wd = _workdir(prop)
     plan = plan_thorough if tier == "thorough" else plan_quick
@@ -205,7 +217,7 @@ def ref_family_check(prop, tier, seed, plan_quick, plan_thorough, corr=None, des
     if corr is not None:
         corr_info, corr_bad = corr(hbin, wd, tier, seed)
 
-    res, crashes, stats = run_ref_sweeps(hbin, wd, seed, plan)
+    res, crashes, stats = run_ref_sweeps(sweep_bin, wd, seed, plan, extra_env=sweep_env)
     fails = [r for r in res if r.get("fail")]
     hits, n_new, skipped = classify_failures(prop, v, fails, crashes)
     for note in replay_witnesses(hbin, wd, prop):
@@ -376,4 +388,35 @@ def check_C19(tier, seed, replay=None):
                             [("wf", "", 60000), ("wf", "bin", 30000), ("wf", "func", 20000), ("wf", "deep", 20000)])
 
 
-CHECKS = {"C08": check_C08, "C02": check_C02, "C03": check_C03, "C07": check_C07, "C11": check_C11, "C19": check_C19, "C16": check_C16, "C09": check_C09, "C10": check_C10}
+def check_C13(tier, seed, replay=None):
+    corr = _corr_generic("lifecases", "C13", "Life.status_of / querier balance vs outcome class and open/close counts of faulted executions", 40, 300)
+    return ref_family_check("C13", tier, seed, [("panic", "", 600), ("extreme", "", 300)],
+                            [("panic", "", 12000), ("extreme", "", 3000), ("ref", "agg", 20000)], corr=corr)
+
+
+def check_C15(tier, seed, replay=None):
+    corr = _corr_generic("lifecases", "C15", "Life.status_of vs outcome class of faulted executions", 40, 300)
+    return ref_family_check("C15", tier, seed, [("storerr", "", 800)], [("storerr", "", 16000)], corr=corr)
+
+
+def check_C17(tier, seed, replay=None):
+    corr = _corr_generic("lifecases", "C17", "Life querier balance vs open/close counts at the moment Exec returned", 40, 300)
+    return ref_family_check("C17", tier, seed, [("lifecycle", "", 800)], [("lifecycle", "", 16000)], corr=corr)
+
+
+def check_C14(tier, seed, replay=None):
+    return ref_family_check("C14", tier, seed, [("cancel", "", 500), ("cancelstress", "", 16)],
+                            [("cancel", "", 10000), ("cancelstress", "", 400)])
+
+
+def check_C12(tier, seed, replay=None):
+    return ref_family_check("C12", tier, seed, [("conc", "", 150), ("cancel", "", 100)],
+                            [("conc", "", 3000), ("cancel", "", 2000), ("hist", "", 500)], race=True)
+
+
+def check_C20(tier, seed, replay=None):
+    return ref_family_check("C20", tier, seed, [("hist", "", 400)], [("hist", "", 8000)])
+
+
+CHECKS = {"C08": check_C08, "C02": check_C02, "C03": check_C03, "C07": check_C07, "C11": check_C11, "C19": check_C19, "C16": check_C16, "C09": check_C09, "C10": check_C10, "C12": check_C12, "C13": check_C13, "C14": check_C14,
+          "C15": check_C15, "C17": check_C17, "C20": check_C20}
